@@ -42,8 +42,7 @@ def initial(nlines=6, with_empty=False, with_spacey=False):
     # modes other than what a newly created file gets: preserving them is part of "the tree equals ..."
     m.t['d/h'] = (m.t['d/h'][0], 0o755)
     m.t['e/i'] = (m.t['e/i'][0], 0o600)
-    if with_empty:
-        m.t['z'] = ([], 0o644)   # a zero-length source file
+    m.t['z'] = ([], 0o600)   # a zero-length file (it may be filled, or replaced by a rename; its mode is not the default one)
     if with_spacey:
         m.t[SPACEY] = ([b'sp%d' % i for i in range(nlines)], 0o644)   # a name that needs quoting in patch headers
     return m
@@ -148,7 +147,7 @@ class FP:
         def nm(side, name):
             if name is None:
                 return b'/dev/null'
-            pre = {0: '', 1: side + '/', 2: 'x/' + side + '/'}[strip]
+            pre = {0: '', 1: side + '/', 2: 'x/' + side + '/', 'dot': './'}[strip]   # 'dot': -p0 with names spelled ./name
             full = (pre + name).encode()
             if any(c in full for c in b' "\\\t'):
                 # names with blanks or quotes are written as C strings, the way diff and git do
@@ -333,6 +332,31 @@ def t_rename_fail(m, fresh, f, g):
     return FP('renamefail(%s->%s)' % (f, g), f, g, [h], ok=False, files=[f, g], rej=f, fail_hunks=[0], git={'rename': True}, rename=True)
 
 
+def t_rename_onto_empty(m, fresh, f, g, withhunk):
+    """a git rename onto an existing zero-length file: it goes through (there is nothing to lose)"""
+    if f not in m.t or g not in m.t or m.t[g][0] or len(m.t[f][0]) < 3:
+        return None
+    lines, mode = m.t[f]
+    new, hunks = lines, []
+    if withhunk:
+        h, new = mk_hunk(lines, 1, 'rep', fresh(), 1)
+        hunks = [h]
+
+    def ap(mm):
+        md = mm.t[f][1]
+        del mm.t[f]
+        mm.t[g] = (new, md)
+    return FP('renameontoempty%s(%s->%s)' % ('H' if withhunk else '', f, g), f, g, hunks, files=[f, g], apply=ap, git={'rename': True}, rename=True)
+
+
+def t_rename_missing(m, fresh, f, g):
+    """a git rename (with a hunk) of a file that does not exist: the hunk fails, nothing comes into existence"""
+    if f in m.t or g in m.t:
+        return None
+    h = Hunk(1, 1, [(' ', b'a'), ('-', b'b'), ('+', b'c')])
+    return FP('renamemissing(%s->%s)' % (f, g), f, g, [h], ok=False, files=[f, g], rej=g, fail_hunks=[0], git={'rename': True}, rename=True)
+
+
 def t_rename_onto(m, fresh, f, g):
     if f not in m.t or g not in m.t or f == g or not m.t[g][0]:
         return None
@@ -340,7 +364,7 @@ def t_rename_onto(m, fresh, f, g):
 
 
 def t_mode(m, fresh, f, withhunk):
-    if f not in m.t or len(m.t[f][0]) < 3:
+    if f not in m.t or (len(m.t[f][0]) < 3 and (withhunk or not m.t[f][0])):
         return None
     lines, mode = m.t[f]
     cur = 0o644 if mode is None else mode
@@ -525,13 +549,13 @@ class Patch:
     def series_line(self, name):
         opts = []
         if self.strip != 1:
-            opts.append('-p%d' % self.strip)
+            opts.append('-p0' if self.strip == 'dot' else '-p%d' % self.strip)
         if self.reverse:
             opts.append('-R')
         return ' '.join([name] + opts)
 
     def label(self):
-        return '+'.join(fp.name for fp in self.fps) + ('-R' if self.reverse else '') + ('' if self.strip == 1 else '-p%d' % self.strip) + ('EMPTY' if self.empty else '')
+        return '+'.join(fp.name for fp in self.fps) + ('-R' if self.reverse else '') + ('' if self.strip == 1 else ('-p0(./names)' if self.strip == 'dot' else '-p%d' % self.strip)) + ('EMPTY' if self.empty else '')
 
 
 def enumerate_series(max_fps, max_dev, rich=True, m0=None, allow_after_failure=0, plain_files=None):
@@ -631,6 +655,20 @@ def special_series(m0=None):
         [[(t_mod, 'd/g')], [(t_mod, 'f')], [(t_modfail, 'f'), (t_mod, 'e/i')], [(t_modfail, 'd/g')]],
         [[(t_delete, 'f', False), (t_create, 'n', False)], [(t_modfail, 'd/g'), (t_rename, 'd/h', 'd/n', True)]],
         [[(t_rename, 'f', 'n', True)], [(t_rename_fail, 'n', 'x/y/n'), (t_mod, 'd/g')]],
+        # a rename onto an existing empty file (mode 0600): its backup, and its return when the patch or a later one fails
+        [[(t_rename_onto_empty, 'f', 'z', True)]],
+        [[(t_rename_onto_empty, 'f', 'z', False)], [(t_mod, 'z', 1, 0, 0)]],
+        [[(t_rename_onto_empty, 'f', 'z', False), (t_modfail, 'd/g')]],
+        [[(t_modfail, 'd/g'), (t_rename_onto_empty, 'd/h', 'z', True)]],
+        [[(t_mod, 'e/i')], [(t_modfail, 'd/g')], [(t_rename_onto_empty, 'f', 'z', False)]],
+        # a rename of a file that does not exist
+        [[(t_rename_missing, 'q', 'n')]],
+        [[(t_mod, 'f')], [(t_rename_missing, 'q', 'n'), (t_mod, 'd/g')]],
+        [[(t_delete, 'f', False)], [(t_rename_missing, 'f', 'n')]],
+        # a file named by two entries of one patch, one of them a mode change: the backup holds state and mode from before the patch
+        [[(t_create, 'n', False)], [(t_mode, 'n', False), (t_mod, 'n', 1, 0, 0)]],
+        [[(t_mode, 'd/h', False), (t_mod, 'd/h')]],
+        [[(t_mod, 'e/i'), (t_mode, 'e/i', True)], [(t_mod, 'f')]],
     ]
     out = []
     for steps in S:
@@ -652,7 +690,7 @@ def with_patch_options(series_list, max_dev):
         if series_dev(s) + 1 > max_dev:
             continue
         for i in range(len(s)):
-            for kw in ({'reverse': True}, {'strip': 0}, {'strip': 2}):
+            for kw in ({'reverse': True}, {'strip': 0}, {'strip': 2}, {'strip': 'dot'}):
                 v = [Patch(p.fps, p.reverse, p.strip, p.empty) for p in s]
                 v[i] = Patch(s[i].fps, kw.get('reverse', False), kw.get('strip', 1))
                 out.append(v)
@@ -704,6 +742,14 @@ def c13_space(max_files, m0=None):
         for t in (t_modfail(m0, fresh, SPACEY), t_partial(m0, fresh, SPACEY), t_delete_mismatch(m0, fresh, SPACEY), t_multi(m0, fresh, SPACEY, [False, True, True])):
             out.append([Patch([t])])
             out.append([Patch([t_mod(m0, fresh, 'f'), t])])
+    # several failing entries for one file in the failing patch: one reject file with a section per entry, in patch order
+    fresh = Fresh()
+    for f in ('f', 'd/g'):
+        a, b, c, d = t_modfail(m0, fresh, f), t_multi(m0, fresh, f, [True, True]), t_partial(m0, fresh, f), t_delete_mismatch(m0, fresh, f)
+        other = t_mod(m0, fresh, 'e/i')
+        for combo in ([a, b], [b, a], [c, a], [a, c], [a, other, b], [a, d], [b, a, d]):
+            out.append([Patch(list(combo))])
+        out.append([Patch([t_mod(m0, fresh, 'd/h')]), Patch([a, b]), Patch([t_mod(m0, fresh, 'd/h', i=4)])])
     # every failure reason, alone and next to a plain file patch on another file
     fresh = Fresh()
     for t in menu(m0, fresh):
@@ -754,12 +800,26 @@ def expectation(m0, series, first=0, last=None):
     return {'k': k, 'model': m, 'pre': pre, 'rej_required': rej_req, 'rej_permitted': rej_perm, 'rej_hunks': rej_hunks, 'fail': fail, 'error': error}
 
 
+class Raw(list):
+    """a hand-written workspace standing in for (model, series) where the oracle is differential (C06, C09, ...) and no model is
+    needed: files {path: (bytes, mode | 'link')}, patches {name: bytes}, series lines. It is an empty list of patches for the
+    structural helpers; its class tags are given."""
+
+    def __init__(self, label, files, patches, lines, tags=()):
+        super().__init__()
+        self.label, self.files, self.patches, self.lines, self.tags = label, files, patches, lines, tuple(tags)
+
+
 def workspace_of(m0, series, names=None):
     """(files, patches, series_lines) for ws.make_ws"""
+    if isinstance(series, Raw):
+        return series.files, series.patches, series.lines
     names = names or names_for(series)
     patches = {n: p.text() for n, p in zip(names, series)}
     return m0.files(), patches, [p.series_line(n) for n, p in zip(names, series)]
 
 
 def describe_series(series):
+    if isinstance(series, Raw):
+        return series.label
     return ' | '.join(p.label() for p in series)
